@@ -27,6 +27,17 @@ def generate(rng, tier):
         mode = rng.choice(['zip', 'zip', 'combine_latest', 'merge'])
         cases.append({'ast': [['tee', mode, brs]], 'trace': muxgen.gen_trace_scale(rng, rng.choice(['many', 'many', 'long2'])),
                       'mode': mode, 'branches': brs, 'ctx': 'top', 'scale': True})
+    # rs.math.dist.describe: tee_map(min, max, mean, stddev, quantiles...) over the streaming distribution - it must be
+    # the zip of those operators run independently on the same stream (consecutive items of one key re-emit the SAME
+    # Distogram object, mutated in place)
+    for _ in range({'quick': 6, 'thorough': 120, 'search': 2}[tier]):
+        bins = rng.choice([5, 20, 100])
+        qs = rng.choice([[0.25, 0.5, 0.75], [0.5], [0.1, 0.9], []])
+        brs = [[['dist_metric', bins, m]] for m in ('min', 'max', 'mean', 'stddev')] + [[['dist_metric', bins, 'quantile', q]] for q in qs]
+        plain = rng.random() < 0.3
+        trace = muxgen.gen_trace(rng, muxgen.INT, nkeys=rng.choice([1, 2, 3]), max_items=rng.choice([None, 8]))
+        cases.append({'ast': [['dist_describe', bins, qs]], 'trace': trace, 'mode': 'zip', 'branches': brs,
+                      'ctx': 'plain' if plain else 'top', 'dist': True})
     return cases
 
 
